@@ -239,12 +239,15 @@ def run(facts, rep):
         inst = 'Trans::reduce|each list collapsed to its own product under its own length'
         if ok3 and tgt == {'f_mats': {'forward_mat'}, 'b_mats': {'backward_mat'}}:
             rep.ok('E27.W3-reduce', inst, 'f_mats := [forward_mat()], b_mats := [backward_mat()]')
+        elif set(tgt) != {'f_mats', 'b_mats'} and ok3:
+            raise Bad('reduce stores %s' % tgt)
         else:
             rep.violation('E27.W3-reduce', inst, 'Trans::reduce assigns %s%s' % (tgt, '' if ok3 else '; ' + bad3), where=b['reduce'].where())
         # W4
         for fn, meth, wantc in (('append', 'push', [('arg1.f_mats', 'arg2'), ('arg1.b_mats', 'arg3')]),
                                 ('merge', 'append', [('arg1.f_mats', 'arg2.f_mats'), ('arg1.b_mats', 'arg2.b_mats')])):
             got = None
+            per_path = []
             for p in SymEx(b[fn]).run():
                 if p.end != 'return':
                     continue
@@ -260,10 +263,18 @@ def run(facts, rep):
                             a1s = sk(a1).replace('&mut ', '').replace('*', '')
                         cs.append((a0, re.sub(r'^_(\d+)', r'arg\1', a1s.replace('&mut ', ''))))
                 got = cs
+                per_path.append((cs, [sk(e.term)[:50] for e in p.branches() if not (e.name or '').startswith('assert:')]))
             inst = 'Trans::%s|extends f_mats and b_mats together' % fn
+            lone = [(c_, g_) for c_, g_ in per_path if len({a_ for a_, _ in c_}) < 2 and all(re.match(r'arg1\.(f_mats|b_mats)$', a_) for a_, _ in c_)]
+            if lone and any(len({a_ for a_, _ in c_}) == 2 for c_, _ in per_path):
+                rep.violation('E27.W4-paired-growth', inst, 'Trans::%s has a path (under %s) that extends %s: the two factor lists no longer have the same length and order' % (fn, lone[0][1][:2], [a_ for a_, _ in lone[0][0]] or 'neither list'), where=b[fn].where())
+                continue
             norm = [(a, re.sub(r'^arg2(\.|$)', r'arg2\1', c)) for a, c in (got or [])]
             if norm == wantc:
                 rep.ok('E27.W4-paired-growth', inst, str(norm))
+            elif not norm or not all(re.match(r'arg1\.(f_mats|b_mats)$', a_) and re.match(r'arg[23](\.(f_mats|b_mats))?$', c_) for a_, c_ in norm):
+                # e.g. extend / a loop of pushes / a helper: not read
+                raise Bad('%s grows its lists by %s' % (fn, norm))
             else:
                 rep.violation('E27.W4-paired-growth', inst, 'Trans::%s performs %s, expected %s' % (fn, norm, wantc), where=b[fn].where())
     except Bad as e:
